@@ -748,7 +748,7 @@ pub fn run_lockstep_shard(
             for (p, fp, sample) in stats.nontrivial {
                 if p == prop {
                     any = true;
-                    ctx.nontrivial(fp, || sample.unwrap_or(Value::Null));
+                    ctx.nontrivial(fp, || sample.unwrap_or_else(|| json!({"session": case_json(c)})));
                 }
             }
             if any {
